@@ -290,6 +290,15 @@ impl ReadCursor {
         let mut current_group = self.readers.load(CONSUME);
         loop {
             unsafe {
+                if (*current_group).readers.len() == 1 {
+                    // The last stream stays registered at its final position: senders that
+                    // have not yet seen the no-reader signal are still held back by it, so
+                    // nothing between last_pos and head is overwritten before teardown.
+                    // Nobody else can change the group any more, there is no other receiver
+                    self.last_pos.set(reader.load_count(Ordering::Relaxed));
+                    alloc::deallocate(reader.meta as *mut ReaderMeta, 1);
+                    return true;
+                }
                 let new_group = (*current_group).remove_reader(reader.pos);
                 match self.readers.compare_exchange(
                     current_group,
@@ -350,6 +359,9 @@ impl Drop for ReadCursor {
         // The group that is published when the queue goes away was never retired
         unsafe {
             let last_group = self.readers.load(Ordering::Relaxed);
+            for reader_pos in &(*last_group).readers {
+                alloc::deallocate(*reader_pos as *mut ReaderPos, 1);
+            }
             ptr::read(last_group);
             alloc::deallocate(last_group, 1);
         }
